@@ -608,9 +608,11 @@ class SArr:
             e = lift(value, self.isfloat)
             self._setreg(lambda idx: mask.get(idx), lambda idx: e)
             return
-        nk = self._norm_key(key)
-        if any(isinstance(k, SArr) for k in nk):
-            return self._fancy_set(nk, value)
+        kt = key if isinstance(key, tuple) else (key,)
+        if any(isinstance(k, SArr) for k in kt):
+            # (normalise the key only here: _norm_key may branch on symbolic slice bounds, and the plain path below
+            # normalises again inside self[key])
+            return self._fancy_set(self._norm_key(key), value)
         view = self[key]
         if not isinstance(view, SArr):
             # scalar position: write through a 1-element slice view
